@@ -344,8 +344,18 @@ class CFG:
                 return True
         return False
 
+    _LOG = {"debug_log", "info_log", "warning_log", "error_log", "debug", "info", "warning", "error", "log"}
+
+    def _only_logs(self, node):
+        """A statement that is nothing but a logging call: by the checker's convention it has no effect and does not raise."""
+        a = node.ast
+        return node.kind == "stmt" and isinstance(a, ast.Expr) and isinstance(a.value, ast.Call) and isinstance(a.value.func, ast.Attribute) and \
+            a.value.func.attr in self._LOG
+
     def _exc(self, node, ctx):
         """Add exceptional out-edges for a freshly created node."""
+        if self._only_logs(node):
+            return
         if ctx.in_try() or (self.exc_all and self._may_raise(node)):
             ctx.do_raise([node.id])
 
